@@ -6,6 +6,11 @@ ids=[p['id'] for p in props]
 
 # id -> (technique, level text, level note, design ref)
 BUILT={
+"C07": ("proptest over (API, operation, seed): requests built from the OpenAPI document alone (schema-directed instance generator + OpenAPI-3.0 validator) replayed against live servers; responses validated against the document",
+        "For four compiled APIs (echo round trip and document-independent value endpoints for ~60 zoo types; typed path/query/JSON/form/multipart/raw endpoints; every response kind; paginated endpoints) plus generated API programs in the thorough tier: a request consisting of the documented path, all required parameters, a random subset of optional ones and a body the validator accepts for the documented request schema must be answered with a documented success status (handler entered once); status, content type and body of every response must be among those documented (body validated against the documented schema, required response headers present); omitting each required query parameter must give a 4xx without handler entry, and that framework error must validate against the documented error response.",
+        "Sampling; operations whose schemas use a string format the harness cannot generate are skipped and counted; instances are conservative (no properties the schema does not name); values returned by the value endpoints are restricted to those the type's own schema admits.",
+        "DESIGN.md section 4 C07"),
+
 "C08": ("proptest differential between two independent validators (JSON Schema draft-07 on the type's own schemars schema vs OpenAPI 3.0 on the published schema) over schema-directed valid/near-miss instances, plus a structural keyword-preservation walk; compiled type zoo and run-time keyword enrichment",
         "About 70 compiled types (all numeric widths, formats, options, sequences, sets, maps, nested/recursive/generic structs, enums in every serde representation incl. overlapping untagged ones, flatten, deny_unknown_fields, range/length/regex attributes, docs, defaults, deprecated, examples) are published as request body and response through ApiDescription::openapi(); for generated instances the verdict of a draft-07 validator on schemars' draft-07 schema must equal the verdict of an OpenAPI-3.0 validator on the published schema; every constraint keyword and listed annotation in the schema handed to dropshot must have its dialect image in the published schema; the same two oracles run on those schemas enriched at random positions with keywords from the statement's vocabulary, published inline and by reference.",
         "Sampling; 'supported' = the converter does not raise one of its explicit unsupported panics (counted, not judged); own validators cover the keyword subset schemars 0.8 emits; integer bounds added by enrichment are integral.",
